@@ -590,8 +590,8 @@ def t2_departure_bounded(F, r):
 
 
 def q1_no_self_comparison(F, r):
-    from .common import self_comparison_rule
-    n = self_comparison_rule(F, r, ("vrp_core::construction::features", "vrp_core::construction::enablers", "vrp_core::models::common", "vrp_core::models::problem",
+    from .common import lints_rule
+    n = lints_rule(F, r, ("vrp_core::construction::features", "vrp_core::construction::enablers", "vrp_core::models::common", "vrp_core::models::problem",
                                     "vrp_core::models::goal", "vrp_pragmatic::format::problem"), "feasibility guard")
     if n < 300:
         r.fail("comparison floor", f"only {n} comparison sites scanned in constraint code")
